@@ -72,7 +72,7 @@ def rand_param(rng, allow=None):
         raw = struct.pack("<HBBBBBI", y, m, d, h, mi, s, us)
         return ty, uns, b"\x0b" + raw, "datetime:" + raw.hex(), "datetime", "%d:%d:%d:%d:%d:%d:%d" % (y, m, d, h, mi, s, us * 1000)
     if ty == 11:
-        days, h, mi, s, us = rng.choice([0, 1, 34, 1000]), rng.randint(0, 23), rng.randint(0, 59), rng.randint(0, 59), rng.choice([1, 999999, rng.randint(1, 999999)])
+        days, h, mi, s, us = rng.choice([0, 1, 34, 1000, 178956970, 178956971, 2**31 - 1, 2**31, 2**32 - 1]), rng.randint(0, 23), rng.randint(0, 59), rng.randint(0, 59), rng.choice([1, 999999, rng.randint(1, 999999)])
         form = rng.choice([0, 8, 12, 12])
         if form == 0:
             return ty, uns, b"\x00", "time:", "dur", "0:0"
